@@ -56,6 +56,27 @@ impl NetSpec {
     }
 }
 
+impl NetSpec {
+    /// inverse of `to_json` (corpus scenarios are stored in that form)
+    pub fn from_json(v: &Value) -> Option<NetSpec> {
+        let us = |x: &Value| -> Option<Vec<usize>> { x.as_array()?.iter().map(|y| y.as_u64().map(|z| z as usize)).collect() };
+        let role = |r: &str| -> &'static str { match r { "west" => "west", "west_a" => "west_a", "west_b" => "west_b", "trunk" => "trunk", "main" => "main", "foul" => "foul",
+            "sid_main" => "sid_main", "sid_side" => "sid_side", "east_a" => "east_a", "east_b" => "east_b", _ => "other" } };
+        let segs: Option<Vec<Seg>> = v["segs"].as_array()?.iter().map(|s| Some(Seg { len: jf(&s["len"]), speed: jf(&s["speed"]), succ: us(&s["succ"])?,
+            group: s["group"].as_u64()? as usize, role: role(s["role"].as_str()?), swap_pred: s["swap_pred"].as_bool()? })).collect();
+        Some(NetSpec { family: v["family"].as_str()?.to_string(), segs: segs?, west: us(&v["west"])?, east: us(&v["east"])?, fwd_idx: us(&v["fwd_idx"])?, rev_idx: us(&v["rev_idx"])?,
+            elev_w: jfl(&v["elev_w"]), elev_e: jfl(&v["elev_e"]), lockout_style: v["lockout_style"].as_u64()? as usize,
+            extra_lockout: v["extra_lockout"].as_array()?.iter().filter_map(|p| Some((p.get(0)?.as_u64()? as usize, p.get(1)?.as_u64()? as usize))).collect() })
+    }
+}
+impl TrainSpec {
+    pub fn from_json(v: &Value) -> Option<TrainSpec> {
+        let us = |x: &Value| -> Option<Vec<usize>> { x.as_array()?.iter().map(|y| y.as_u64().map(|z| z as usize)).collect() };
+        Some(TrainSpec { id: v["id"].as_str()?.to_string(), eastbound: v["eastbound"].as_bool()?, origs: us(&v["origs"])?, dests: us(&v["dests"])?,
+            length: jf(&v["length"]), depart: jf(&v["depart"]), speed_max: v.get("speed_max").and_then(|x| if x.is_null() { None } else { Some(jf(x)) }) })
+    }
+}
+
 fn pick2(v: &[usize]) -> (usize, usize) {
     (v.first().copied().unwrap_or(0), v.get(1).copied().unwrap_or(0))
 }
